@@ -53,6 +53,8 @@ impl Default for Layout {
 pub fn inlineable(s: &Stmt) -> bool {
     match &s.k {
         K::If { .. } | K::Label(_) | K::Comment(_) | K::Data(_) => false,
+        // `Name: ` in the middle of a line reads like a label
+        K::Call(_, args) if args.is_empty() => false,
         K::For { body, .. } | K::While(_, body) | K::Do(_, _, body) => body.iter().all(inlineable),
         K::Select { cases, els, .. } => cases.iter().all(|(_, b)| b.iter().all(inlineable)) && els.as_ref().map(|b| b.iter().all(inlineable)).unwrap_or(true),
         _ => true,
